@@ -35,7 +35,7 @@ PROPERTIES = {
                                         'lemma (not machine-checked): a polygon lies in the convex hull of its vertices, hence in any box containing them'],
                 assumptions=[A_PY, A_REAL, A_TRIG, A_NUMPY, A_UNITS,
                              'minimality of polygon boxes is proved for 3..6 vertices (concrete spine), enclosure of vertices for any number']),
-    'C02': dict(level='proof', trusted=[A_PY, A_REAL, A_TRIG, A_NUMPY, A_UNITS,
+    'C02': dict(level='proof', bounded=['sampled_masks'], trusted=[A_PY, A_REAL, A_TRIG, A_NUMPY, A_UNITS,
                                         A_KERNEL_GRID],
                 assumptions=[A_PY, A_REAL, A_TRIG, A_NUMPY, A_UNITS, 'compiled kernels: contract discharged from the .pyx text for centre/subpixel modes; exact mode assumed (see trusted_base)',
                              'compound and annulus masks are proved against arbitrary operands obeying the base contract of PixelRegion.to_mask']),
